@@ -183,8 +183,17 @@ def check(run, record_expected=False):
     distinct = set()
     samples = []
     ghostless = 0
+    small = [""]
+    for n in range(1, 5 if run.tier == "quick" else 6):
+        small += ["".join(t) for t in itertools.product("a'" + '"`', repeat=n)]
+    small += ["```abc```", "```a```", "'''", "``````", "```` ```", "'a" + '"', '"a' + "'"]
     corpora = {"doctrans.defaults_utils:extract_default": ed_corpus(run.tier, run.seed),
-               "doctrans.pure_utils:location_within": lw_corpus(run.tier, run.seed)}
+               "doctrans.pure_utils:location_within": lw_corpus(run.tier, run.seed),
+               "doctrans.pure_utils:unquote": [{"input_str": x} for x in small] + [{"input_str": None}],
+               "doctrans.pure_utils:quote": [{"s": x} for x in small] + [{"s": None}] + [{"s": x, "mark": "'"} for x in small[:60]],
+               "doctrans.pure_utils:code_quoted": [{"s": x} for x in small] + [{"s": None}, {"s": 5}],
+               "vf.contracts.laws:quote_twice": [{"s": x} for x in small],
+               "vf.contracts.laws:unquote_quote": [{"s": x} for x in small]}
     for key, corpus in corpora.items():
         for rec in contract_rt.run_corpus(key, corpus):
             if rec["case"] is None:
